@@ -104,6 +104,15 @@ class Report:
     def error(self, msg):
         self.errors.append(msg)
 
+    def run(self, rule_fn, *args, **kw):
+        """run one rule; if that rule's analysis cannot stand (AnalysisError) record it and go on with the other rules -
+        a violation found by another rule stands on its own"""
+        from .model import AnalysisError
+        try:
+            return rule_fn(*args, **kw)
+        except AnalysisError as e:
+            self.error('%s: %s' % (getattr(rule_fn, '__name__', 'rule'), e))
+
     def canary(self, name, ok, detail=''):
         self.canaries.append((name, ok, detail))
         if not ok:
@@ -136,6 +145,13 @@ class Report:
         else:
             for fe in floor_errors:
                 self.note('floor not met: ' + fe)
+        rule_errors = [e for e in self.errors if not e.startswith('internal error') and not e.startswith('canary')
+                       and not e.startswith('self-test') and not e.startswith('quick (K=2')]
+        if violations and rule_errors and len(rule_errors) == len(self.errors):
+            # some rule could not be evaluated, but another one found a concrete violation: report the violation
+            for e in rule_errors:
+                self.note('analysis error next to a violation: ' + e)
+            self.errors = []
         out = []
         by_rule = {}
         for o in self.obs.values():
